@@ -33,6 +33,8 @@ POOL = [
     "class", "None", "lambda", "import os", "__import__('os')", "is valid", "is_valid", "format", "_format", "VALID_LINE_DELIMITER_TEXTS", "__dict__", "__class__",
     "-1e5000", "-1e5000...", "...-1e5000", "1e5000", "...5", ":5", "5...", "1e999999999999999999", "1e-999999999999999999", "0...1e999999999999999999", "a{99999999999}", "(a{99999}){99999}", "0x" + "f" * 5000, "9" * 5000, "hex", "rot13", "base64", "zlib_codec", "unicode_escape", "idna", "punycode",
     "DD.DD", "YYYYYY", "hh:hh", "%%DD", "DD%", "MMMM", "x" * 300, "a,b;c|d", "tab", "TAB", "cr lf",
+    "999999999999999", "1...999999999999999", "999999999999999...", "(?a)(?u)x", "(" * 500 + "a" + ")" * 500, "[" * 300, "kind < exit(4)", "kind < quit()", "id\\\n< 3", "\\\nid < 3",
+    " /\n\x00", "/\n\x00", "id /\n\x00", "1 if", "kind < (yield)", "kind < (lambda: 1)()", "kind < [c for c in 'ab']", "kind := 3", "kind < 1; 2",
 ]
 # hostile variations of the cell's own (well-formed) value: white space the tokenizer does not know, control characters,
 # brackets and stray punctuation glued to it
@@ -121,7 +123,7 @@ def load_and_validate(ctx, base, cid_rows, case, via_main):
     except errors.CutplaceError as error:
         ctx.count("cid.refused-with-%s(not judged)" % type(error).__name__)
         cid = None
-    except Exception as error:
+    except (Exception, SystemExit) as error:
         ctx.violation("C10:escape:cid:%s" % classify_escape(error), case, "loading a CID with a hostile cell ended in an internal error",
                       expected="InterfaceError or success", observed=error)
         return
@@ -131,7 +133,11 @@ def load_and_validate(ctx, base, cid_rows, case, via_main):
             cutplace.validate(cid, base.data_path)
         except (errors.DataError, errors.InterfaceError):
             pass
-        except Exception as error:
+        except MemoryError:
+            # e.g. a fixed-width field declared 999999999999999 characters wide: the reader asks for that many characters
+            ctx.unjudged("memory exhausted while reading under absurd declared sizes")
+            return
+        except (Exception, SystemExit) as error:
             ctx.violation("C10:escape:validate-under-hostile-cid:%s" % classify_escape(error), case,
                           "validating data under a CID that loaded with a hostile cell ended in an internal error",
                           expected="DataError, InterfaceError or success", observed=error)
@@ -149,7 +155,7 @@ def load_and_validate(ctx, base, cid_rows, case, via_main):
         except BaseException as error:  # noqa
             code = "raised %s" % type(error).__name__
         ctx.count("main.invocations")
-        if code == 4 or (isinstance(code, str) and code.startswith("raised")):
+        if code == 4 or (isinstance(code, str) and (code.startswith("raised") or code == "SystemExit(4)")):
             ctx.violation("C10:exit-4:cid", case, "the command line answered a hostile CID with exit code 4", expected="0, 1 or 3", observed=code)
 
 
